@@ -383,6 +383,56 @@ def correspond(ctx, scale):
         if len(samples) < 4:
             samples.append(dict(config=cfg['name']))
     from vector_quantize_pytorch import VectorQuantize as _VQ
+    # (7c) the cross entropy to caller-supplied target indices (`indices=`) under a mask, in EVALUATION mode as well as in training (round 11, seed
+    # C09-k): the loss reads the distances of every position the targets do not ignore - padded rows must have been zeroed on entry in BOTH modes.  Real
+    # targets at padded positions: the loss does not depend on the padding content; targets -1 there with inf padding: loss equal, gradients finite.
+    from vector_quantize_pytorch import ResidualVQ as _RVQc
+    ce_cfgs = [('vq-plain', lambda: _VQ(dim=4, codebook_size=6), 4, 0), ('vq-proj-learnable', lambda: _VQ(dim=4, codebook_dim=2, codebook_size=6, learnable_codebook=True, ema_update=False), 4, 0),
+               ('vq-heads', lambda: _VQ(dim=4, codebook_dim=2, heads=2, codebook_size=6), 4, 2), ('rvq-proj', lambda: _RVQc(dim=4, codebook_dim=3, num_quantizers=2, codebook_size=6), 4, -2)]
+    for cname, cmk, cdim, chq in ce_cfgs:
+        for train_c in (False, True):
+            try:
+                torch.manual_seed(4400 + len(cname))
+                base_c = cmk()
+                b, n = 3, 5
+                m = torch.arange(n)[None, :] < torch.tensor([n, 3, 1])[:, None]
+                x = torch.randn(b, n, cdim)
+                tshape = (b, n) if chq == 0 else (b, n, abs(chq))
+                tgt_real = torch.randint(0, 6, tshape)
+                tgt_ign = torch.where(m if chq == 0 else m[..., None], tgt_real, torch.full_like(tgt_real, -1))
+                for tname, tgt in (('real-targets-at-padding', tgt_real), ('ignored-targets-at-padding', tgt_ign)):
+                    ref_c = None
+                    for fill in ((0.0, 3.0, 'randn', 1e4) if tname.startswith('real') else (0.0, float('inf'), float('nan'))):
+                        mod_c = copy.deepcopy(base_c)
+                        mod_c.train(train_c)
+                        pad = torch.randn_like(x) * 5.0 if fill == 'randn' else torch.full_like(x, fill)
+                        xf = torch.where(m[..., None], x, pad).requires_grad_(True)
+                        torch.manual_seed(11)
+                        try:
+                            rc = mod_c(xf, mask=m, indices=tgt, **({'freeze_codebook': True} if train_c else {}))
+                        except AssertionError:
+                            dist['masked_ce_target_rejected'] = dist.get('masked_ce_target_rejected', 0) + 1
+                            break          # a combination the class rejects loudly
+                        loss_c = rc[1].sum()
+                        grads = {}
+                        if loss_c.requires_grad:
+                            loss_c.backward()
+                            grads = {'grad:' + pn: pp.grad.detach().clone() for pn, pp in mod_c.named_parameters() if pp.grad is not None}
+                            if xf.grad is not None:
+                                grads['input-gradient'] = xf.grad[m]
+                        obs = dict(grads, loss=rc[1].detach().clone())
+                        evaluations += 1
+                        dist['masked_ce_target_calls'] = dist.get('masked_ce_target_calls', 0) + 1
+                        if ref_c is None:
+                            ref_c = obs
+                            continue
+                        for k_, v_ in obs.items():
+                            if k_ in ref_c and not (bool(torch.isfinite(v_).all()) and torch.allclose(v_, ref_c[k_], atol=1e-6, rtol=1e-5)):
+                                failures.append({'key': f'{cname}:masked-ce-targets:{tname}:{k_.split(":")[0]}:train={train_c}', 'what': f'{cname} train={train_c}, indices= with {tname}: with padding {fill} the {k_} '
+                                                 f'{"is not finite" if not bool(torch.isfinite(v_).all()) else "differs from the zero-padded call (" + str(v_.reshape(-1)[:3].tolist()) + " vs " + str(ref_c[k_].reshape(-1)[:3].tolist()) + ")"}',
+                                                 'case': dict(name=cname, train=train_c, targets=tname, fill=str(fill))})
+            except Exception as ex:
+                failures.append({'key': f'{cname}:masked-ce-targets:exception:{type(ex).__name__}', 'what': f'{cname} train={train_c}: {ex!r}'[:300], 'case': dict(name=cname, train=train_c)})
     # (7a) the FIRST call of a k-means codebook is a masked, frozen one (a frozen-codebook warm-up): the initialisation clusters the VALID tokens only - the
     # resulting state is the one of the same first call on the packed valid tokens (same generator state), whatever the amount of padding
     for ki in range(4 if not ctx.thorough else 16):
